@@ -90,8 +90,87 @@ func c13model(c *Ctx) {
 		run.memo[key] = a
 		return a
 	}
+	// the deviation measure: any package function (Point, Point, Point) float64 — the distance, or a
+	// squared or otherwise monotone variant of it.  Its result is an opaque quantity; what the
+	// oracle answers is the comparison the algorithm then makes with a tolerance-derived value.
+	isDist := func(f *types.Func) bool {
+		if f == distF {
+			return true
+		}
+		sig := f.Type().(*types.Signature)
+		if sig.Recv() != nil || sig.Params().Len() != 3 || sig.Results().Len() != 1 || c.P.DeclPkg(f) != c.P.Pkg("geom") {
+			return false
+		}
+		for i := 0; i < 3; i++ {
+			if !types.Identical(sig.Params().At(i).Type(), m.ptT) {
+				return false
+			}
+		}
+		return isFloat64(sig.Results().At(0).Type())
+	}
+	it.symbolic = true
+	distAtom := func(p poly) string {
+		name := ""
+		for k := range p {
+			for _, f := range strings.Split(k, "*") {
+				if strings.HasPrefix(f, "dist_") {
+					if name != "" && name != f {
+						return ""
+					}
+					name = f
+				}
+			}
+		}
+		return name
+	}
+	it.cmpOracle = func(op token.Token, a, b poly) (bool, bool) {
+		la, lb := distAtom(a), distAtom(b)
+		if (la == "") == (lb == "") {
+			if la != "" && lb != "" {
+				// two deviations compared with each other
+				gt := ask("cmp " + la + " " + lb)
+				switch op {
+				case token.GTR, token.GEQ:
+					return gt, true
+				case token.LSS, token.LEQ:
+					return !gt, true
+				case token.EQL:
+					return false, true
+				case token.NEQ:
+					return true, true
+				}
+			}
+			return false, false
+		}
+		atom, left := la, true
+		if la == "" {
+			atom, left = lb, false
+		}
+		var k, x, y int
+		fmt.Sscanf(atom, "dist_%d_%d_%d", &k, &x, &y)
+		far := ask(fmt.Sprintf("dist %d %d %d", k, x, y))
+		run.queries = append(run.queries, c13query{kind: "dist", a: x, b: y, k: k, answer: far})
+		big := far == left // is the left operand the larger one?
+		switch op {
+		case token.GTR, token.GEQ:
+			return big, true
+		case token.LSS, token.LEQ:
+			return !big, true
+		case token.EQL:
+			return false, true
+		case token.NEQ:
+			return true, true
+		}
+		return false, false
+	}
 	it.stub = func(f *types.Func, recv oval, args []oval) ([]oval, bool) {
 		switch {
+		case isDist(f) && len(args) == 3:
+			k, a, b := idx(args[0]), idx(args[1]), idx(args[2])
+			if k < 0 || a < 0 || b < 0 {
+				return []oval{oTop{"distance between points that are not vertices of the input"}}, true
+			}
+			return []oval{oSym{polyVar(fmt.Sprintf("dist_%d_%d_%d", k, a, b))}}, true
 		case f == distF && len(args) == 3:
 			k, a, b := idx(args[0]), idx(args[1]), idx(args[2])
 			if k < 0 || a < 0 || b < 0 {
@@ -209,7 +288,7 @@ func c13model(c *Ctx) {
 				before := deepCopy(curve).(oSlice)
 				it.steps = 0
 				c.Evals(1)
-				res, why := it.Call(map[string]*types.Func{"LineString": lsF, "Polygon": pgF}[target], recv, []oval{oFloat{tol}}, 0)
+				res, why := it.Call(map[string]*types.Func{"LineString": lsF, "Polygon": pgF}[target], recv, []oval{oSym{polyVar("tol")}}, 0)
 				where := fmt.Sprintf("a %s of %d vertices, answers %s", target, n, showAnswers(run))
 				if run.overflow {
 					// more questions were asked than answers supplied: extend both ways
@@ -413,7 +492,7 @@ func c13model(c *Ctx) {
 				before := deepCopy(curve).(oSlice)
 				c.Evals(1)
 				totalRuns++
-				res, why := it.Call(lsF, curve, []oval{oFloat{tol}}, 0)
+				res, why := it.Call(lsF, curve, []oval{oSym{polyVar("tol")}}, 0)
 				where := fmt.Sprintf("a LineString of %d vertices whose vertex %d repeats vertex %d", n, dup+1, dup)
 				if why == "" && len(res) > 0 {
 					if t, isTop := res[0].(oTop); isTop {
